@@ -55,6 +55,56 @@ def is_proj_of(t, base, idx):
     return t == ('proj', base, ('f', str(idx)))
 
 
+def decode_next_inline(F, ev, rets, fallible):
+    """next() written with an inline match / `?` on self.models.next().  Returns (ok, text) or None if not this shape."""
+    MODELS = (1, 'deref', ('f', 'models'))
+    n_some = n_none = 0
+    for p in rets:
+        nx = [e for e in p.events if e['kind'] == 'call' and e['callee'] == 'core::iter::Iterator::next']
+        if len(nx) != 1 or nx[0]['args'][0][1] != MODELS:
+            return None
+        item = item_of(nx[0]['result'])
+        decs = [e for e in p.events if e['kind'] == 'call' and e['callee'] == DEC + '::decode_symbol']
+        got = None
+        for t, v, _ in p.preds:
+            if t[0] == 'discr' and (t[1] == nx[0]['result'] or t[1] == ('try', nx[0]['result'])):
+                dv = sym.discr_variant(t, v)
+                got = {'Some': True, 'Continue': True, 'None': False, 'Break': False}.get(dv, got)
+        if got is None:
+            return None
+        if not got:
+            n_none += 1
+            if decs:
+                return (False, 'a symbol is decoded although the model iterator is exhausted')
+            if rules.ret_shape(p.ret)[0] not in ('None',) and not (p.ret is not None and p.ret[0] == 'err_of'):
+                return (False, 'the exhausted-iterator exit does not return None')
+            continue
+        n_some += 1
+        sh = rules.ret_shape(p.ret)
+        if sh[0] != 'Some':
+            return (False, 'a yielded model does not produce an item')
+        if not fallible:
+            if len(decs) != 1 or decs[0]['args'][1] != item or sh[1] != decs[0]['result']:
+                return (False, 'the item is not `decoder.decode_symbol(model)` for the yielded model')
+        else:
+            ok_model = ('payload', item, 'Ok', '0')
+            is_ok = any(t[0] == 'discr' and t[1] == item and sym.discr_variant(t, v) == 'Ok' for t, v, _ in p.preds)
+            is_err = any(t[0] == 'discr' and t[1] == item and sym.discr_variant(t, v) == 'Err' for t, v, _ in p.preds)
+            if is_ok:
+                if len(decs) != 1 or decs[0]['args'][1] != ok_model or not sym.contains(sh[1], lambda x, res=decs[0]['result']: x == res):
+                    return (False, 'an Ok model is not decoded with exactly that model, or the decoded result is not what the item carries')
+            elif is_err:
+                if decs:
+                    return (False, 'a symbol is decoded although the model iterator yielded an error')
+                if not sym.contains(sh[1], lambda x: x == ('payload', item, 'Err', '0')):
+                    return (False, 'the error of an invalid model is not passed on')
+            else:
+                return None
+    if n_none != 1 or n_some < 1:
+        return None
+    return (True, 'inline form: one decode_symbol per yielded %s, None when the model iterator is exhausted' % ('Ok model (errors passed on)' if fallible else 'model'))
+
+
 def loop_batch_check(ctx, F, name, fallible):
     b = default_body(F, ENC, name)
     key = 'R5/batch-is-loop/%s::%s' % (ENC, name)
@@ -96,11 +146,11 @@ def loop_batch_check(ctx, F, name, fallible):
             a = enc[0]['args']
             if fallible:
                 # item is Result<(S, M), E>; the operands must be the components of its unwrapped (Ok) value
-                val = None
+                vals = [('payload', item, 'Ok', '0')]          # `match item { Ok((s, m)) => .. }`
                 for e in r.events:
                     if e['kind'] == 'call' and e['callee'].endswith('::map_err') and e['args'] and e['args'][0] == item:
-                        val = ('unwrap', e['result'])
-                if val is None or not (is_proj_of(a[1], val, 0) and is_proj_of(a[2], val, 1)):
+                        vals.append(('unwrap', e['result']))        # `item.map_err(..)?`
+                if not any(is_proj_of(a[1], val, 0) and is_proj_of(a[2], val, 1) for val in vals):
                     bad = 'encode_symbol is not called with the components of the item\'s Ok value'
                     break
             else:
@@ -111,8 +161,11 @@ def loop_batch_check(ctx, F, name, fallible):
                 bad = 'encode_symbol is not applied to self'
                 break
             # its result must be `?`-propagated: a Continue decision on try(result) is on the path
-            if not any(t[0] == 'discr' and t[1] == ('try', enc[0]['result']) for t, v, _ in r.preds):
-                bad = 'the result of encode_symbol is not `?`-propagated (an encoding error would be dropped)'
+            # its result decides whether the loop goes on: `?` (Continue of try(result)) or an explicit match / if-let (Ok arm)
+            res_e = enc[0]['result']
+            propagated = any(t[0] == 'discr' and ((t[1] == ('try', res_e) and sym.discr_variant(t, v) == 'Continue') or (t[1] == res_e and sym.discr_variant(t, v) == 'Ok')) for t, v, _ in r.preds)
+            if not propagated:
+                bad = 'the loop continues without having examined the result of encode_symbol (an encoding error would be dropped)'
                 break
         elif r.end == 'return':
             sh = rules.ret_shape(r.ret)
@@ -121,11 +174,11 @@ def loop_batch_check(ctx, F, name, fallible):
                 if enc:
                     bad = 'the success exit is reached with a pending encode_symbol outside the loop'
                     break
-            elif r.ret is not None and r.ret[0] == 'err_of':
-                src = r.ret[1]
-                if src[0] == 'call' and src[1] == ENC + '::encode_symbol':
+            elif r.ret is not None and (r.ret[0] == 'err_of' or sh[0] == 'Err'):
+                # which error is reported: the one of encode_symbol, or the one carried by the item?
+                if enc and sym.contains(r.ret, lambda x, res=enc[-1]['result']: x == res):
                     n_err_enc += 1
-                elif src[0] == 'call' and src[1].endswith('::map_err'):
+                elif nxt and sym.contains(r.ret, lambda x, it=item_of(nxt[-1]['result']): x == it):
                     n_err_item += 1
                     if enc:
                         bad = 'an invalid item is reported after it was already encoded'
@@ -259,6 +312,17 @@ def check_decode_adaptors(ctx, F):
                                     good = False
                                     why = 'invalid model reported after decoding'
                     ok = good and n_dec == 1
+        if not ok and why == 'unexpected shape':
+            # the same behaviour written without Option::map: a match / `?` on models.next() in the body itself
+            v2 = decode_next_inline(F, ev, r, fallible)
+            if v2 is not None:
+                ok, why = v2
+                if ok:
+                    ctx.ok('R5', role, b.defpath, why, key=key)
+                    continue
+            else:
+                ctx.unresolved('R5', role, b.defpath, 'shape outside the idiom list (neither models.next().map(closure) nor an inline match on models.next())', key=key)
+                continue
         (ctx.ok if ok else ctx.bad)('R5', role, b.defpath, 'models.next().map(|m| decoder.decode_symbol(m))' if ok else why, key=key, loc=rules.loc(b))
     nb = [b for b in F.bodies if b.promoted is None and b.name == 'next' and b.self_adt == 'stream::DecodeIidSymbols' and b.impl_trait == 'core::iter::Iterator']
     key = 'R5/decode-next/stream::DecodeIidSymbols'
